@@ -150,8 +150,11 @@ func main() {
 	outFile := flag.String("o", "", "output file for -minimise")
 	dump := flag.Bool("dump", false, "print per-run hashes")
 	maxFail := flag.Int("maxfail", 6, "distinct signatures to keep per worker")
+	raceLog := flag.String("racelog", "", "GORACE log_path prefix (race builds)")
 	flag.Parse()
 	h.NSites = sitesCount(*sites)
+	h.RaceLog = *raceLog
+	h.RaceMode = simrt.RaceBuild && *raceLog != ""
 	log.SetOutput(io.Discard) // gengine logs unknown rule names through the std logger
 
 	if *replay != "" {
@@ -216,20 +219,24 @@ func main() {
 			seen[s] = true
 			sum.Sigs[s]++
 			if _, have := sum.FailFiles[s]; !have && len(sum.FailFiles) < *maxFail && *out != "" {
-				// re-run with tracing for the replay file
-				pl, sc := simrt.ReplaySource(o.PlanRec), simrt.ReplaySource(o.SchedRec)
-				o2 := p.Run(pl, sc, true)
-				m2, _ := filter(p, o2)
-				ok := false
-				for _, w := range m2 {
-					if sigOf(*prop, w) == s {
-						ok = true
+				o2 := o
+				if !p.Race {
+					// re-run with tracing for the replay file (a race is reported once per process, so race runs are not repeated here)
+					pl, sc := simrt.ReplaySource(o.PlanRec), simrt.ReplaySource(o.SchedRec)
+					o2 = p.Run(pl, sc, true)
+					m2, _ := filter(p, o2)
+					ok := false
+					for _, w := range m2 {
+						if sigOf(*prop, w) == s {
+							ok = true
+						}
+					}
+					if !ok || o2.TraceHash != o.TraceHash {
+						sum.Infra = fmt.Sprintf("run %d: immediate replay diverged (sig %s reproduced=%v, trace %016x vs %016x)", i, s, ok, o.TraceHash, o2.TraceHash)
+						break
 					}
 				}
-				if !ok || o2.TraceHash != o.TraceHash {
-					sum.Infra = fmt.Sprintf("run %d: immediate replay diverged (sig %s reproduced=%v, trace %016x vs %016x)", i, s, ok, o.TraceHash, o2.TraceHash)
-					break
-				}
+				m2, _ := filter(p, o2)
 				var vs []h.Violation
 				for _, w := range m2 {
 					if sigOf(*prop, w) == s {
